@@ -73,7 +73,7 @@ def _attrs(lib, sup, ps, edge, calc_ids):
             c_driver.add("rmp-reader")
         if f.get("trait") == "std::iter::Iterator" and f.get("name") == "next" and "serde_yaml::Deserializer" in st:
             c_driver.add("serde_yaml-multidoc")
-        if f.get("trait") == "std::iter::Iterator" and f.get("name") == "next" and "Chunker" in st:
+        if common.is_chunker_next(lib.facts, f):
             c_driver.add("chunker")
         if f.get("crate") == "toml" and f.get("name") == "new" and "Deserializer" in d:
             c_driver.add("toml-whole-document")
